@@ -1,144 +1,312 @@
-/- Helper lemmas for C03 (statements of the property theorems are fixed in MysyncProofs/C03.lean). -/
-import MysyncModel.Dcs.LockSys
+/- Helper lemmas for C03 (statements of the property theorems are fixed in MysyncProofs/C03.lean).
+Part 3: what the property theorems need from the invariant (parts 1, 2: LockServer.lean, LockInv.lean),
+the growth of `told`, and the light invariant of the TTL-0 theorem. -/
+import MysyncProofs.Lemmas.LockInv
 
 namespace LockLemmas
 open Zk LockSys
 
-/-! ### the continuations of `opAcquire` / `opRelease`, named -/
+/-! ### `holds` as a proposition -/
 
-/-- after `create lock self true` of `AcquireLock` -/
-def kCre : Resp → Prog Res := fun r =>
-  match r with
-  | .created => .ret (.bool true)
-  | _ => .ret (.bool false)
+theorem holds_iff (σ : Sys) (i : Nat) :
+    holds σ i = true ↔ ∃ c, σ.clients[i]? = some c ∧ HoldsC σ.srv σ.lock c.id c.sid := by
+  unfold holds HoldsC
+  cases hc : σ.clients[i]? with
+  | none => simp
+  | some c =>
+    cases hf : σ.srv.find? σ.lock with
+    | none => simp
+    | some n =>
+      simp only [Bool.and_eq_true, beq_iff_eq, List.contains_iff_mem]
+      constructor
+      · rintro ⟨⟨h1, h2⟩, h3⟩
+        exact ⟨c, rfl, n, rfl, h1, h2, h3⟩
+      · rintro ⟨c', hc', m, hm, h1, h2, h3⟩
+        cases hc'; cases hm
+        exact ⟨⟨h1, h2⟩, h3⟩
 
-/-- after the `get lock` of `AcquireLock` -/
-def kAcq (p : Path) (self : String) : Resp → Prog Res := fun r =>
-  match r with
-  | .err .noNode => .call (.create p self true) kCre
-  | .data d _ _ => .ret (.bool (d == self))
-  | _ => .ret (.bool false)
+/-- right after the guarded expiry of its session a client neither holds the lock nor has a cache entry
+(no invariant needed: the session is not live any more, and the guard asked for an empty cache) -/
+theorem expire_not_holder (σ : Sys) (i : Nat) (c : Client) (hc : σ.clients[i]? = some c)
+    (he : step σ (.expire i) ≠ σ) :
+    holds (step σ (.expire i)) i = false ∧ ∀ c', (step σ (.expire i)).clients[i]? = some c' → c'.cache = none := by
+  simp only [step, hc] at he ⊢
+  by_cases hgd : (c.cache.isNone && c.prog.isNone) = true
+  · rw [if_pos hgd]
+    simp only [Bool.and_eq_true, Option.isNone_iff_eq_none] at hgd
+    constructor
+    · cases hh : holds { σ with srv := σ.srv.expire c.sid } i with
+      | false => rfl
+      | true =>
+        rw [holds_iff] at hh
+        obtain ⟨c', hc', _, _, _, _, hl⟩ := hh
+        have hc'' : σ.clients[i]? = some c' := hc'
+        rw [hc] at hc''
+        cases hc''
+        simp [Server.expire] at hl
+    · intro c' hc'
+      have hc'' : σ.clients[i]? = some c' := hc'
+      rw [hc] at hc''
+      cases hc''
+      exact hgd.1
+  · rw [if_neg hgd] at he
+    exact absurd rfl he
 
-/-- after the `delete lock ver` of `ReleaseLock` (`n` = attempts left) -/
-def kDel (p : Path) (self : String) (n : Nat) : Resp → Prog Res := fun r =>
-  match r with
-  | .err .connClosed => opRelease p self n
-  | _ => .ret .done
+/-! ### `told` grows only for a client that has a cache entry afterwards -/
 
-/-- after the `get lock` of `ReleaseLock` (`n` = attempts left) -/
-def kRel (p : Path) (self : String) (n : Nat) : Resp → Prog Res := fun r =>
-  match r with
-  | .data d ver _ => if d == self then .call (.delete p ver) (kDel p self n) else .ret .done
-  | .err .connClosed => opRelease p self n
-  | _ => .ret .done
+theorem settle_told {σ : Sys} {i : Nat} {c : Client} {p : Prog Res} {j : Nat} {b : Bool} {told0 : List (Nat × Bool)}
+    (hi : σ.clients[i]? = some c) (ht : σ.told = told0) (h : (settle σ i c p).told = (j, b) :: told0) :
+    ∃ c', (settle σ i c p).clients[j]? = some c' ∧ c'.cache ≠ none := by
+  cases p with
+  | ret r =>
+    simp only [settle] at h ⊢
+    by_cases hcond : (c.acquiring && r == .bool true) = true
+    · rw [if_pos hcond] at h ⊢
+      simp only [ht, List.cons.injEq, Prod.mk.injEq, and_true] at h
+      obtain ⟨rfl, _⟩ := h
+      exact ⟨_, set_get_self hi, by simp⟩
+    · rw [if_neg hcond] at h
+      simp only [ht] at h
+      exact absurd h.symm (List.cons_ne_self _ _)
+  | call q k =>
+    simp only [settle, ht] at h
+    exact absurd h.symm (List.cons_ne_self _ _)
 
-theorem opAcquire_eq (p : Path) (self : String) : opAcquire p self = .call (.get p) (kAcq p self) := rfl
-theorem opRelease_zero (p : Path) (self : String) : opRelease p self 0 = .ret .done := rfl
-theorem opRelease_succ (p : Path) (self : String) (n : Nat) :
-    opRelease p self (n + 1) = .call (.get p) (kRel p self n) := rfl
+theorem told_grows_cache (σ : Sys) (st : Step) (j : Nat) (b : Bool) (h : (step σ st).told = (j, b) :: σ.told) :
+    ∃ c', (step σ st).clients[j]? = some c' ∧ c'.cache ≠ none := by
+  have hno : ∀ {P : Prop}, σ.told = (j, b) :: σ.told → P := fun h => absurd h.symm (List.cons_ne_self _ _)
+  generalize hs : step σ st = σ' at h ⊢
+  cases st with
+  | tick d => subst hs; exact hno h
+  | beginAcquire i =>
+    simp only [step] at hs
+    split at hs
+    · subst hs; exact hno h
+    · next c hi =>
+      split at hs
+      · subst hs; exact hno h
+      · split at hs
+        · next hfresh =>
+          subst hs
+          simp only [List.cons.injEq, Prod.mk.injEq, and_true] at h
+          obtain ⟨rfl, _⟩ := h
+          refine ⟨c, hi, fun hn => ?_⟩
+          rw [hn] at hfresh
+          simp [cacheFresh] at hfresh
+        · subst hs; exact hno h
+  | beginRelease i =>
+    simp only [step] at hs
+    split at hs
+    · subst hs; exact hno h
+    · split at hs <;> (subst hs; exact hno h)
+  | prim i =>
+    simp only [step] at hs
+    split at hs
+    · next c hi =>
+      split at hs
+      · split at hs
+        · subst hs
+          exact settle_told (σ := { σ with srv := _ }) hi rfl h
+        · subst hs; exact hno h
+      · subst hs; exact hno h
+    · subst hs; exact hno h
+  | primLost i =>
+    simp only [step] at hs
+    split at hs
+    · next c hi =>
+      split at hs
+      · split at hs
+        · subst hs
+          exact settle_told (σ := { σ with srv := _ }) hi rfl h
+        · subst hs; exact hno h
+      · subst hs; exact hno h
+    · subst hs; exact hno h
+  | primLostRetry i =>
+    simp only [step] at hs
+    split at hs
+    · split at hs
+      · split at hs <;> (subst hs; exact hno h)
+      · subst hs; exact hno h
+    · subst hs; exact hno h
+  | fail i e =>
+    simp only [step] at hs
+    split at hs
+    · next c hi =>
+      split at hs
+      · subst hs
+        exact settle_told hi rfl h
+      · subst hs; exact hno h
+    · subst hs; exact hno h
+  | event i =>
+    simp only [step] at hs
+    split at hs <;> (subst hs; exact hno h)
+  | expire i =>
+    simp only [step] at hs
+    split at hs
+    · split at hs <;> (subst hs; exact hno h)
+    · subst hs; exact hno h
+  | expireAny i =>
+    simp only [step] at hs
+    split at hs <;> (subst hs; exact hno h)
+  | reconnect i =>
+    simp only [step] at hs
+    split at hs
+    · split at hs <;> (subst hs; exact hno h)
+    · subst hs; exact hno h
 
-theorem opRelease_cases (p : Path) (self : String) (n : Nat) :
-    opRelease p self n = .ret .done ∨ ∃ m, opRelease p self n = .call (.get p) (kRel p self m) := by
-  cases n with
-  | zero => exact Or.inl rfl
-  | succ m => exact Or.inr ⟨m, rfl⟩
+/-! ### TTL 0: the cache never answers (all steps, also the unguarded expiry) -/
 
-/-! ### the server on the lock key -/
+/-- cache entries are never in the future, and the cache has not answered so far -/
+def TtlInv (σ : Sys) : Prop :=
+  σ.ttl = 0 ∧ (∀ c ∈ σ.clients, ∀ t, c.cache = some t → t ≤ σ.now) ∧ ∀ i, (i, true) ∉ σ.told
 
-def optNode (lock : Path) : Option ZNode → List (Path × ZNode)
-  | none => []
-  | some n => [(lock, n)]
+theorem ttl_update {σ σ' : Sys} {i : Nat} {c' : Client} (h : TtlInv σ) (httl : σ'.ttl = σ.ttl) (hnow : σ'.now = σ.now)
+    (hcl : σ'.clients = σ.clients.set i c') (hc' : ∀ t, c'.cache = some t → t ≤ σ.now)
+    (htold : σ'.told = σ.told ∨ ∃ j, σ'.told = (j, false) :: σ.told) : TtlInv σ' := by
+  obtain ⟨h1, h2, h3⟩ := h
+  refine ⟨httl.trans h1, ?_, ?_⟩
+  · intro x hx t ht
+    rw [hnow]
+    rw [hcl] at hx
+    rcases List.mem_or_eq_of_mem_set hx with hx | hx
+    · exact h2 x hx t ht
+    · subst hx; exact hc' t ht
+  · intro k hk
+    rcases htold with e | ⟨j, e⟩
+    · rw [e] at hk; exact h3 k hk
+    · rw [e] at hk
+      simp only [List.mem_cons, Prod.mk.injEq, Bool.true_eq_false, and_false, false_or] at hk
+      exact h3 k hk
 
-/-- the static facts about the tree around the lock key (from `C03.GoodInit`) -/
-structure Par (lock : Path) (parents : List (Path × ZNode)) : Prop where
-  ne : lock ≠ []
-  own : ∀ pn ∈ parents, pn.2.owner = 0
-  nlock : ∀ pn ∈ parents, pn.1 ≠ lock
+theorem ttl_same {σ σ' : Sys} {d : Nat} (h : TtlInv σ) (httl : σ'.ttl = σ.ttl) (hnow : σ'.now = σ.now + d)
+    (hcl : σ'.clients = σ.clients) (htold : σ'.told = σ.told) : TtlInv σ' := by
+  obtain ⟨h1, h2, h3⟩ := h
+  refine ⟨httl.trans h1, ?_, by rw [htold]; exact h3⟩
+  intro x hx t ht
+  rw [hcl] at hx
+  have := h2 x hx t ht
+  rw [hnow]
+  omega
 
-theorem find_parents_none {lock : Path} {parents : List (Path × ZNode)} (hp : Par lock parents) :
-    parents.find? (fun x => x.1 == lock) = none := by
-  rw [List.find?_eq_none]
-  intro x hx
-  simpa using hp.nlock x hx
+theorem ttl_settle {σ : Sys} {i : Nat} {c : Client} (p : Prog Res) (h : TtlInv σ) (hc : c ∈ σ.clients) :
+    TtlInv (settle σ i c p) := by
+  cases p with
+  | ret r =>
+    simp only [settle]
+    split
+    · refine ttl_update h rfl rfl rfl (fun t ht => ?_) (Or.inr ⟨i, rfl⟩)
+      simp only [Option.some.injEq] at ht
+      omega
+    · exact ttl_update h rfl rfl rfl (fun t ht => h.2.1 c hc t ht) (Or.inl rfl)
+  | call q k =>
+    simp only [settle]
+    exact ttl_update h rfl rfl rfl (fun t ht => h.2.1 c hc t ht) (Or.inl rfl)
 
-theorem find_lock {lock : Path} {parents : List (Path × ZNode)} (hp : Par lock parents) {s : Server} {o : Option ZNode}
-    (h : s.nodes = parents ++ optNode lock o) : s.find? lock = o := by
-  unfold Server.find?
-  rw [h, List.find?_append, find_parents_none hp]
-  cases o <;> simp [optNode]
-
-theorem step_get_some {s : Server} {p : Path} {n : ZNode} (h : s.find? p = some n) (sid : Sid) :
-    s.step sid (.get p) = (s, .data n.data n.version n.owner) := by
-  simp only [Server.step, h]
-
-theorem step_get_none {s : Server} {p : Path} (h : s.find? p = none) (hp : p ≠ []) (sid : Sid) :
-    s.step sid (.get p) = (s, .err .noNode) := by
-  simp [Server.step, h, hp]
-
-theorem step_create_cases (s : Server) (sid : Sid) (p : Path) (d : String) (eph : Bool) :
-    (s.step sid (.create p d eph) = (s.put p { data := d, version := 0, owner := if eph then sid else 0 }, .created)
-        ∧ s.find? p = none) ∨
-    ∃ e, s.step sid (.create p d eph) = (s, .err e) := by
-  simp only [Server.step]
-  split
-  · exact Or.inr ⟨_, rfl⟩
-  · split
-    · exact Or.inr ⟨_, rfl⟩
-    · split
-      · exact Or.inr ⟨_, rfl⟩
+theorem ttl_step {σ : Sys} (h : TtlInv σ) (st : Step) : TtlInv (step σ st) := by
+  cases st with
+  | tick d => exact ttl_same (d := d) h rfl rfl rfl rfl
+  | beginAcquire i =>
+    simp only [step]
+    split
+    · exact h
+    · next c hi =>
+      have hc := List.mem_of_getElem? hi
+      split
+      · exact h
       · split
-        · exact Or.inr ⟨_, rfl⟩
-        · refine Or.inl ⟨rfl, ?_⟩
-          simp_all
-
-theorem step_delete_cases (s : Server) (sid : Sid) (p : Path) (v : Int) :
-    (s.step sid (.delete p v) = (s.erase p, .deleted) ∧ ∃ n, s.find? p = some n) ∨
-    ∃ e, s.step sid (.delete p v) = (s, .err e) := by
-  simp only [Server.step]
-  split
-  · exact Or.inr ⟨_, rfl⟩
-  · split
-    · exact Or.inr ⟨_, rfl⟩
+        · next hfresh =>
+          exfalso
+          cases hcache : c.cache with
+          | none => rw [hcache] at hfresh; simp [cacheFresh] at hfresh
+          | some t =>
+            have := h.2.1 c hc t hcache
+            rw [hcache, h.1] at hfresh
+            simp only [cacheFresh, decide_eq_true_eq] at hfresh
+            omega
+        · exact ttl_update h rfl rfl rfl (fun t ht => by simp at ht) (Or.inl rfl)
+  | beginRelease i =>
+    simp only [step]
+    split
+    · exact h
     · split
-      · exact Or.inr ⟨_, rfl⟩
-      · exact Or.inl ⟨rfl, _, by assumption⟩
+      · exact h
+      · exact ttl_update h rfl rfl rfl (fun t ht => by simp at ht) (Or.inl rfl)
+  | prim i =>
+    simp only [step]
+    split
+    · next c hi =>
+      split
+      · split
+        · exact ttl_settle (σ := { σ with srv := _ }) _ h (List.mem_of_getElem? hi)
+        · exact h
+      · exact h
+    · exact h
+  | primLost i =>
+    simp only [step]
+    split
+    · next c hi =>
+      split
+      · split
+        · exact ttl_settle (σ := { σ with srv := _ }) _ h (List.mem_of_getElem? hi)
+        · exact h
+      · exact h
+    · exact h
+  | primLostRetry i =>
+    simp only [step]
+    split
+    · split
+      · split
+        · exact h
+        · exact h
+      · exact h
+    · exact h
+  | fail i e =>
+    simp only [step]
+    split
+    · next c hi =>
+      split
+      · exact ttl_settle _ h (List.mem_of_getElem? hi)
+      · exact h
+    · exact h
+  | event i =>
+    simp only [step]
+    split
+    · exact ttl_update h rfl rfl rfl (fun t ht => by simp at ht) (Or.inl rfl)
+    · exact h
+  | expire i =>
+    simp only [step]
+    split
+    · split
+      · exact h
+      · exact h
+    · exact h
+  | expireAny i =>
+    simp only [step]
+    split
+    · exact h
+    · exact h
+  | reconnect i =>
+    simp only [step]
+    split
+    · next c hi =>
+      split
+      · exact h
+      · exact ttl_update h rfl rfl rfl (fun t ht => h.2.1 c (List.mem_of_getElem? hi) t ht) (Or.inl rfl)
+    · exact h
 
-theorem put_absent {lock : Path} {parents : List (Path × ZNode)} (hp : Par lock parents) {s : Server}
-    (h : s.nodes = parents ++ optNode lock none) (n : ZNode) :
-    (s.put lock n).nodes = parents ++ optNode lock (some n) ∧ (s.put lock n).live = s.live := by
-  have hf := find_lock hp h
-  unfold Server.put
-  simp [hf, h, optNode]
+theorem ttl_run {σ : Sys} (h : TtlInv σ) (steps : List Step) : TtlInv (run σ steps) := by
+  induction steps generalizing σ with
+  | nil => exact h
+  | cons st rest ih =>
+    simp only [run, List.foldl_cons]
+    exact ih (ttl_step h st)
 
-theorem erase_lock {lock : Path} {parents : List (Path × ZNode)} (hp : Par lock parents) {s : Server} {o : Option ZNode}
-    (h : s.nodes = parents ++ optNode lock o) :
-    (s.erase lock).nodes = parents ++ optNode lock none ∧ (s.erase lock).live = s.live := by
-  unfold Server.erase
-  refine ⟨?_, rfl⟩
-  simp only [h, List.filter_append, optNode, List.append_nil]
-  have h1 : parents.filter (fun x => x.1 != lock) = parents := by
-    rw [List.filter_eq_self]
-    intro x hx
-    simpa using hp.nlock x hx
-  rw [h1]
-  cases o <;> simp
-
-theorem expire_nodes {lock : Path} {parents : List (Path × ZNode)} (hp : Par lock parents) {s : Server} {o : Option ZNode}
-    (h : s.nodes = parents ++ optNode lock o) {sid : Sid} (hs : 0 < sid) :
-    (s.expire sid).nodes = parents ++ optNode lock (o.filter (fun n => n.owner != sid)) := by
-  unfold Server.expire
-  simp only [h, List.filter_append]
-  have h1 : parents.filter (fun x => x.2.owner != sid) = parents := by
-    rw [List.filter_eq_self]
-    intro x hx
-    have := hp.own x hx
-    simp only [bne_iff_ne, ne_eq]
-    rw [this]
-    exact Nat.ne_of_lt hs
-  rw [h1]
-  cases o with
-  | none => simp [optNode]
-  | some n =>
-    by_cases hn : n.owner = sid <;> simp [optNode, Option.filter, hn]
+theorem ttl_init (ids : List String) (lock : Path) (parents : List (Path × ZNode)) :
+    TtlInv (init ids lock 0 parents) := by
+  refine ⟨rfl, ?_, fun i hi => by simp [init] at hi⟩
+  intro c hc t ht
+  obtain ⟨i, hi⟩ := List.getElem?_of_mem hc
+  rw [(init_client hi).2.2.1] at ht
+  cases ht
 
 end LockLemmas
